@@ -60,3 +60,15 @@ CLAIMS["C16"] = (
     "ties between savings are excluded as in the property (argsort order among ties unspecified); the sparse penalty used for collective anomalies is the built-in one made exact through the scale; transform's marking is checked by the oracle and C05.",
     "3/C16",
 )
+CLAIMS["C12"] = (
+    "Lean 4 proofs of the algebraic symmetries on closed forms / algorithm models (+ L1 tie to the regenerated kernels) + paired-run correspondence on transformed data",
+    "Theorems agg_perm_invariant, orderDesc_vals_perm_invariant, penGeneral_perm_invariant (permutation), l2Optim_shift_invariant, gaussOptim_shift_invariant, cusum_shift_invariant (shift), gauss_change_score_scale_invariant (scale, above the floor), segSum_reverse, pelt_reversal_bijection (reversal) in Skc/Props/C12.lean, for all data / lengths / constants.",
+    "the lift from invariant score tables to identical detector outputs and all floating-point margins are exercised by paired runs (a differing discrete output counts only if it persists under 1e-9 perturbations), not proved; multivariate Gaussian cost: numeric only; Gaussian statements hold above the variance floor (cases at the floor are skipped and counted).",
+    "3/C12",
+)
+CLAIMS["C15"] = (
+    "Lean 4 proofs about translator-regenerated formulas and list models (cumsum/min/diff, sorted-list quantile) + numeric correspondence on parameter grids",
+    "Theorems gen_capa_penalty, gen_dense_penalty, gen_sparse_penalty, gen_pelt_default_penalty, gen_sbs/cbs_default_threshold (L1: regenerated code = documented formula), capaPenalty_proportional / _nonneg, sparse_terms_nonneg, constant_beta_monotone, combined_family (cumsum of diff = pointwise min; non-negative betas), tuned_threshold_bound (at most level*N scores exceed the 'higher' quantile), pelt_penalty_monotone (exchange argument) in Skc/Props/C15.lean.",
+    "the intermediate family depends on scipy's chi2 (uninterpreted): its sign / monotonicity is checked numerically only and enters combined_family as a hypothesis; `fitted = scale * default` is the model of the `_get_threshold/_get_penalty` methods, tied numerically on a grid; MovingWindow's default threshold is translated and compared in Float but has no documented closed form to prove against.",
+    "3/C15",
+)
